@@ -265,12 +265,19 @@ def sweep_cases(cases, rng, tier, others=()):
             return j > 0 and stored_before(c, j) and c['hist'][j]['at'].startswith('storing')
         return j == 0
 
-    def settle(sc, j):
+    def settle(sc, j, as_call=False):
         """steps before the swept one must reliably leave their entry behind: a call killed after its
-        commit is killed at the marker that follows the set"""
+        commit is killed at the marker that follows the set -- or (damage sweeps) replaced by the
+        completed call, which leaves the same model state (TLC emits one history per state and finds
+        the killed variant first) but the directory as a normally ending process leaves it: the
+        WAL checkpointed into cache.db."""
         for st in sc['hist'][:j]:
             if st['op'] == 'kill' and st['at'] in ('storing2', 'storing3'):
-                st['p'] = {'kind': 'marker', 'm': 'set_end'}
+                if as_call:
+                    st['op'], st['at'] = 'call', '-'
+                    st.pop('p', None)
+                else:
+                    st['p'] = {'kind': 'marker', 'm': 'set_end'}
 
     def damage_base(c, how):
         o = ops(c)
@@ -310,7 +317,7 @@ def sweep_cases(cases, rng, tier, others=()):
                         s = concretise(c, rng, tier)
                         j = [k for k, st in enumerate(s['hist']) if st['op'] == 'corrupt'][0]
                         s['hist'][j].pop('p', None)
-                        settle(s, j)
+                        settle(s, j, as_call=(bi == 0))
                         s['mode'] = mode
                         s['exit'] = 'normal'
                         s['cid'] = '%s-%s%s%02x-%d' % (c['cid'], how[0], mode, mask, part)
